@@ -533,6 +533,47 @@ func schedOp(w *schedWorld, name string) func() string {
 			}
 			return out
 		}
+	case "PolicyMatchAlt":
+		// the same policy evaluated against OTHER data (lists and strings of another length):
+		// nothing learnt from one evaluation may leak into the next
+		if dlg == nil {
+			return dash
+		}
+		k := 0
+		fmt.Sscanf(arg, "%d", &k)
+		alt := args.New()
+		for key, v := range w.inv.Arguments().Iter() {
+			switch v.Kind() {
+			case datamodel.Kind_List:
+				var items []any
+				for rep := 0; rep <= k; rep++ {
+					it := v.ListIterator()
+					for !it.Done() {
+						_, e, err := it.Next()
+						if err != nil {
+							break
+						}
+						items = append(items, e)
+					}
+				}
+				if k == 3 {
+					items = items[:1]
+				}
+				alt.Add(key, items)
+			case datamodel.Kind_String:
+				str, _ := v.AsString()
+				alt.Add(key, strings.Repeat("é", k)+str+strings.Repeat("z", k))
+			default:
+				alt.Add(key, v)
+			}
+		}
+		n, err := alt.ToIPLD()
+		if err != nil {
+			return func() string { return "error" }
+		}
+		ok, _ := dlg.Policy().Match(n)
+		pok, _ := dlg.Policy().PartialMatch(n)
+		return func() string { return fmt.Sprint(ok, pok) }
 	case "StoreGet":
 		var raws []rawRec
 		var errs []error
@@ -896,7 +937,7 @@ func genSched(r *Rand, g GenCfg) Plan {
 	invOps := []string{"ExecutionAllowed", "ExecutionAllowed", "ExecutionAllowed", "ExecutionAllowed", "ExecutionAllowed", "ExecutionAllowedHook", "ToSealed", "ToSealedWriter", "ToDagCbor", "ToDagJson", "Encode", "Accessors", "Derived", "IsValid",
 		"ArgsIter", "ArgsString", "ArgsToIPLD", "ArgsGetNode", "ArgsEquals", "ArgsClone", "ArgsCloneMutate", "MetaCloneMutate", "ExecutionAllowedHookAdd", "MetaIter", "MetaString", "MetaGet", "MetaGetEncrypted", "MetaEquals", "MetaClone",
 		"StoreGet", "StoreIter", "ContainerWrite"}
-	dlgOps := []string{"ToSealed", "ToSealedWriter", "ToDagJson", "Encode", "Accessors", "Derived", "Derived", "IsValid", "MetaIter", "MetaString", "MetaGet", "MetaEquals", "MetaClone", "MetaCloneMutate", "PolicyString", "PolicyMatch", "StoreGet"}
+	dlgOps := []string{"ToSealed", "ToSealedWriter", "ToDagJson", "Encode", "Accessors", "Derived", "Derived", "IsValid", "MetaIter", "MetaString", "MetaGet", "MetaEquals", "MetaClone", "MetaCloneMutate", "PolicyString", "PolicyMatch", "PolicyMatchAlt", "PolicyMatchAlt", "StoreGet"}
 	k := r.Range(2, 4)
 	p.Ops = make([][]string, k)
 	for g := 0; g < k; g++ {
@@ -916,6 +957,8 @@ func genSched(r *Rand, g GenCfg) Plan {
 				} else {
 					name += ":none"
 				}
+			case "PolicyMatchAlt":
+				name += ":" + fmt.Sprint(r.Intn(4))
 			case "MetaGet":
 				name += ":" + Pick(r, keyPool)
 			case "MetaGetEncrypted":
